@@ -97,6 +97,9 @@ func wSpecMap(lists ...[]*wSpec) map[string]*wSpec {
 
 func runWSpecs(c *rt.Ctx, specs []*wSpec) {
 	for _, s := range specs {
+		if f := os.Getenv("VERIF_DEV_SPEC"); f != "" && !strings.Contains(s.Name, f) { // development aid
+			continue
+		}
 		if c.Expired() {
 			c.Exhaustive = false
 			break
